@@ -30,6 +30,10 @@ type cacheCase struct {
 	// NilKeys: keys whose function returns nil (a legitimate value: Do must hand it to every caller and must not
 	// take it for "not computed yet").
 	NilKeys []int `json:"nil_keys,omitempty"`
+	// PanicKeys: keys whose function panics (the caller recovers and goes on). The function has been invoked - once -
+	// and never returns a value: the unchanged package leaves every other Do for that key waiting for good and Get
+	// at nil; what must not happen is a second invocation.
+	PanicKeys []int `json:"panic_keys,omitempty"`
 }
 
 func (c cacheCase) strategy() sched.Strategy {
@@ -68,6 +72,11 @@ func run(c cacheCase, strat sched.Strategy, trace bool) outcome {
 	for _, k := range c.NilKeys {
 		nilKey[k] = true
 	}
+	panicKey := map[int]bool{}
+	for _, k := range c.PanicKeys {
+		panicKey[k] = true
+	}
+	panicked := false
 	observer := func() {
 		for id, what := range inGet {
 			if sched.IsBlocked(id) {
@@ -88,33 +97,52 @@ func run(c cacheCase, strat sched.Strategy, trace bool) outcome {
 						if insideDo[o.Key] >= 2 && inF[o.Key] {
 							overlap = true
 						}
-						got := pc.Do(o.Key, func() any {
-							calls[o.Key]++
-							if calls[o.Key] > 1 {
-								setBad(vt.Failf("f-invoked-twice", "f for key %d invoked %d times", o.Key, calls[o.Key]))
-							}
-							inF[o.Key] = true
-							if insideDo[o.Key] >= 2 {
-								overlap = true
-							}
-							for k := 0; k < o.Yields; k++ {
-								sched.Yield()
+						var got any
+						recovered := false
+						func() {
+							defer func() {
+								if r := recover(); r != nil {
+									if r != "planned failure of f" {
+										panic(r)
+									}
+									recovered = true
+								}
+							}()
+							got = pc.Do(o.Key, func() any {
+								calls[o.Key]++
+								if calls[o.Key] > 1 {
+									setBad(vt.Failf("f-invoked-twice", "f for key %d invoked %d times", o.Key, calls[o.Key]))
+								}
+								inF[o.Key] = true
 								if insideDo[o.Key] >= 2 {
 									overlap = true
 								}
-							}
-							v := &val{o.Key, ti, oi}
-							if value[o.Key] == nil {
-								value[o.Key] = v
-							}
-							inF[o.Key] = false
-							fDone[o.Key] = sched.Step() + 1
-							if nilKey[o.Key] {
-								return nil
-							}
-							return v
-						})
+								for k := 0; k < o.Yields; k++ {
+									sched.Yield()
+									if insideDo[o.Key] >= 2 {
+										overlap = true
+									}
+								}
+								v := &val{o.Key, ti, oi}
+								if value[o.Key] == nil {
+									value[o.Key] = v
+								}
+								inF[o.Key] = false
+								if panicKey[o.Key] {
+									panicked = true
+									panic("planned failure of f")
+								}
+								fDone[o.Key] = sched.Step() + 1
+								if nilKey[o.Key] {
+									return nil
+								}
+								return v
+							})
+						}()
 						insideDo[o.Key]--
+						if recovered {
+							continue
+						}
 						if fDone[o.Key] == 0 {
 							setBad(vt.Failf("do-returned-before-f-completed", "task %d: Do(%d) returned %v before the invocation of f completed", ti, o.Key, got))
 						} else if nilKey[o.Key] {
@@ -134,7 +162,7 @@ func run(c cacheCase, strat sched.Strategy, trace bool) outcome {
 						got := pc.Get(o.Key)
 						delete(inGet, me)
 						switch {
-						case nilKey[o.Key]:
+						case nilKey[o.Key] || panicKey[o.Key]:
 							if got != nil {
 								setBad(vt.Failf("get-wrong-value", "task %d: Get(%d) returned %v; the function for that key returns nil", ti, o.Key, got))
 							}
@@ -164,6 +192,12 @@ func run(c cacheCase, strat sched.Strategy, trace bool) outcome {
 		o.stuck = true
 	case len(res.Panics) > 0:
 		o.fail = vt.Failf("panic", "%s%s", res.Panics[0], ctx)
+	case res.Deadlock && panicked:
+		// expected: callers of Do for a key whose function panicked wait for good (Get never does: see the observer)
+		if bad != nil {
+			bad.Msg += ctx
+			o.fail = bad
+		}
 	case res.Deadlock:
 		// a task parked inside Get is a violation in itself; any deadlock is
 		o.fail = vt.Failf("deadlock", "no task can run: %v%s", res.Blocked, ctx)
@@ -239,6 +273,9 @@ func genCache(t *rapid.T) cacheCase {
 	c := cacheCase{Tasks: genProgs(t)}
 	if rapid.IntRange(0, 3).Draw(t, "nilkeys") == 2 {
 		c.NilKeys = rapid.SliceOfNDistinct(rapid.IntRange(0, 3), 1, 2, rapid.ID[int]).Draw(t, "nilkey")
+	}
+	if rapid.IntRange(0, 5).Draw(t, "panickeys") == 4 {
+		c.PanicKeys = []int{rapid.IntRange(0, 2).Draw(t, "panickey")}
 	}
 	if rapid.IntRange(0, 3).Draw(t, "mode") == 0 {
 		c.Mode = "pct"
